@@ -816,51 +816,116 @@ Qed.
 Lemma lookup_cons_same p gid vg : lookup_geometry p ((p, gid) :: vg) = Some gid.
 Proof. unfold lookup_geometry. simpl. rewrite Nat.eqb_refl. reflexivity. Qed.
 
-Lemma parse_step_other ra conts st q d p : q <> p ->
-  lookup_geometry p (snd (parse_step_gen ra conts st (q, d))) = lookup_geometry p (snd st).
+Lemma lookup_none p vg : (forall e, In e vg -> fst e < p) -> lookup_geometry p vg = None.
 Proof.
-  intro H. destruct st as [parsed vg]. unfold parse_step_gen.
+  intro H. unfold lookup_geometry. induction vg as [|e r IH]; [reflexivity|]. simpl.
+  destruct (Nat.eqb (fst e) p) eqn:E.
+  - apply Nat.eqb_eq in E. specialize (H e (or_introl eq_refl)). lia.
+  - apply IH. intros x Hx. apply H. right. exact Hx.
+Qed.
+
+Lemma parse_step_other ra ca conts st q d p : q <> p ->
+  lookup_geometry p (snd (parse_step_full ra ca conts st (q, d))) = lookup_geometry p (snd st).
+Proof.
+  intro H. destruct st as [parsed vg]. unfold parse_step_full.
   destruct (mem (d_gid d) parsed).
-  - destruct ra; simpl; [apply lookup_cons_other; assumption|reflexivity].
+  - destruct (nth_error conts (d_gid d)) as [c|]; [|reflexivity].
+    destruct (negb ca || mem (cont_celldim c) (d_dims d)); [|reflexivity].
+    destruct ra; simpl; [apply lookup_cons_other; assumption|reflexivity].
   - destruct (nth_error conts (d_gid d)) as [c|]; [|reflexivity].
     destruct (accepted (c_g c) && mem (cont_celldim c) (d_dims d)); simpl;
       [apply lookup_cons_other; assumption|reflexivity].
 Qed.
 
-Lemma lookup_preserved ra conts : forall r s' st p, p < s' ->
-  lookup_geometry p (snd (fold_left (parse_step_gen ra conts) (combine (seq s' (length r)) r) st))
+Lemma lookup_preserved ra ca conts : forall r s' st p, p < s' ->
+  lookup_geometry p (snd (fold_left (parse_step_full ra ca conts) (combine (seq s' (length r)) r) st))
   = lookup_geometry p (snd st).
 Proof.
   induction r as [|d r IH]; intros s' st p H; [reflexivity|].
   simpl. rewrite IH by lia. apply parse_step_other. lia.
 Qed.
 
-Lemma parse_step_records conts st p d : good_dvar conts d ->
-  lookup_geometry p (snd (parse_step_gen true conts st (p, d))) = Some (d_gid d).
+(* invariant of the parse: only acceptable containers are held, and only parents already met
+   are recorded *)
+Definition parse_inv (conts : list gcont) (s : nat) (st : list nat * list (nat * nat)) : Prop :=
+  (forall k, In k (fst st) -> exists c, nth_error conts k = Some c /\ accepted (c_g c) = true) /\
+  (forall e, In e (snd st) -> fst e < s).
+
+Lemma parse_step_inv conts s st d :
+  parse_inv conts s st -> parse_inv conts (S s) (parse_step_full true true conts st (s, d)).
 Proof.
-  intros [c [Hc [Ha Hm]]]. destruct st as [parsed vg]. unfold parse_step_gen.
-  destruct (mem (d_gid d) parsed); simpl; [apply lookup_cons_same|].
-  rewrite Hc, Ha, Hm. simpl. apply lookup_cons_same.
+  intros [I1 I2]. destruct st as [parsed vg]. unfold parse_step_full. simpl in *.
+  assert (forall e, In e vg -> fst e < S s) as I2' by (intros e He; specialize (I2 e He); lia).
+  destruct (mem (d_gid d) parsed).
+  - destruct (nth_error conts (d_gid d)) as [c|]; [|split; assumption].
+    destruct (mem (cont_celldim c) (d_dims d)); simpl; (split; [assumption|]); [|assumption].
+    intros e [<-|He]; simpl; [lia|auto].
+  - destruct (nth_error conts (d_gid d)) as [c|] eqn:Hc; [|split; assumption].
+    destruct (accepted (c_g c)) eqn:Ha; simpl; [|split; assumption].
+    destruct (mem (cont_celldim c) (d_dims d)); simpl; [|split; assumption].
+    split.
+    + intros k [<-|Hk]; [exists c; auto|auto].
+    + intros e [<-|He]; simpl; [lia|auto].
+Qed.
+
+(* one step, for the parent it is about: recorded iff the variable is good *)
+Lemma parse_step_own conts s st d :
+  parse_inv conts s st ->
+  lookup_geometry s (snd (parse_step_full true true conts st (s, d)))
+  = if good_dvarb conts d then Some (d_gid d) else None.
+Proof.
+  intros [I1 I2]. destruct st as [parsed vg]. unfold parse_step_full, good_dvarb. simpl in *.
+  pose proof (lookup_none s vg I2) as LN.
+  destruct (mem (d_gid d) parsed) eqn:M.
+  - apply mem_true in M. destruct (I1 _ M) as [c [Hc Ha]]. rewrite Hc, Ha. simpl.
+    destruct (mem (cont_celldim c) (d_dims d)); simpl; [apply lookup_cons_same|exact LN].
+  - destruct (nth_error conts (d_gid d)) as [c|]; [|exact LN].
+    destruct (accepted (c_g c) && mem (cont_celldim c) (d_dims d)); simpl;
+      [apply lookup_cons_same|exact LN].
 Qed.
 
 Lemma lookup_after_fold conts : forall l s st i d,
-  nth_error l i = Some d -> good_dvar conts d ->
+  parse_inv conts s st -> nth_error l i = Some d ->
   lookup_geometry (s + i)
-    (snd (fold_left (parse_step_gen true conts) (combine (seq s (length l)) l) st)) = Some (d_gid d).
+    (snd (fold_left (parse_step_full true true conts) (combine (seq s (length l)) l) st))
+  = if good_dvarb conts d then Some (d_gid d) else None.
 Proof.
-  induction l as [|x r IH]; intros s st i d Hn G; [destruct i; discriminate|].
+  induction l as [|x r IH]; intros s st i d Inv Hn; [destruct i; discriminate|].
   destruct i as [|i]; simpl in Hn.
   - inversion Hn; subst. simpl. rewrite lookup_preserved by lia.
-    rewrite Nat.add_0_r. apply parse_step_records. assumption.
-  - simpl. replace (s + S i) with (S s + i) by lia. apply IH; assumption.
+    rewrite Nat.add_0_r. apply parse_step_own. assumption.
+  - simpl. replace (s + S i) with (S s + i) by lia. apply IH; [|assumption].
+    apply parse_step_inv. assumption.
 Qed.
 
-(* every data variable that names a container is recorded with that container, however many
-   other variables named it (or other containers) before *)
+(* Every data variable on the cell dimension of an acceptable container it names is recorded with
+   that container; every other one (off the cell dimension, container missing or unacceptable) is
+   recorded with none - whatever the order of the variables and whatever else names the container. *)
+Lemma variable_geometry_total conts dvs i d :
+  nth_error dvs i = Some d ->
+  lookup_geometry i (snd (parse_all_gen true conts dvs))
+  = if good_dvarb conts d then Some (d_gid d) else None.
+Proof.
+  intro H. unfold parse_all_gen, parse_all_full.
+  apply (lookup_after_fold conts dvs 0 ([], []) i d); [|assumption].
+  split; intros ? [].
+Qed.
+
+Lemma good_dvar_b conts d : good_dvar conts d <-> good_dvarb conts d = true.
+Proof.
+  unfold good_dvar, good_dvarb. split.
+  - intros [c [Hc [Ha Hm]]]. rewrite Hc, Ha, Hm. reflexivity.
+  - destruct (nth_error conts (d_gid d)) as [c|]; [|discriminate].
+    intro H. apply andb_true_iff in H as [Ha Hm]. exists c. auto.
+Qed.
+
 Lemma variable_sees_its_container conts dvs i d :
   nth_error dvs i = Some d -> good_dvar conts d ->
   lookup_geometry i (snd (parse_all_gen true conts dvs)) = Some (d_gid d).
-Proof. intros H G. unfold parse_all_gen. apply (lookup_after_fold conts dvs 0 ([], []) i d H G). Qed.
+Proof.
+  intros H G. rewrite (variable_geometry_total conts dvs i d H).
+  apply good_dvar_b in G. rewrite G. reflexivity.
+Qed.
 
 Lemma map_seq_nth {A B} (f : nat -> B) (g : A -> B) (l : list A) :
   forall s, (forall i a, nth_error l i = Some a -> f (s + i) = g a) ->
@@ -884,25 +949,38 @@ Proof.
   - apply IH in H as [i [E N]]. exists (S i). split; [lia|exact N].
 Qed.
 
-(* reading a dataset: every data variable is given the cells of the container it names *)
+(* Reading ANY dataset never raises, and every data variable is given the cells of the container
+   it names if it lies on that container's cell dimension, and no geometry otherwise. *)
+Lemma read_dataset_total conts dvs :
+  read_dataset conts dvs
+  = Ok (map (fun d => if good_dvarb conts d then own_cells conts d else None) dvs).
+Proof.
+  unfold read_dataset, read_dataset_gen, read_dataset_full.
+  fold (parse_all_gen true conts dvs).
+  destruct (parse_all_gen true conts dvs) as [parsed vg] eqn:P.
+  assert (forall i d, nth_error dvs i = Some d ->
+            lookup_geometry i vg = if good_dvarb conts d then Some (d_gid d) else None) as L.
+  { intros i d H. replace vg with (snd (parse_all_gen true conts dvs)) by (rewrite P; reflexivity).
+    apply variable_geometry_total. assumption. }
+  rewrite existsb_false_in.
+  2:{ intros [p d] Hin. apply in_combine_seq in Hin as [i [E N]]. simpl in E. subst p.
+      rewrite (L i d N). unfold good_dvarb.
+      destruct (nth_error conts (d_gid d)) as [c|] eqn:Hc; [|reflexivity].
+      destruct (accepted (c_g c) && mem (cont_celldim c) (d_dims d)) eqn:G; [|reflexivity].
+      rewrite Hc. apply andb_true_iff in G as [_ Hm]. rewrite Hm. reflexivity. }
+  f_equal. apply map_seq_nth.
+  intros i d N. simpl. rewrite (L i d N).
+  destruct (good_dvarb conts d); [|reflexivity].
+  unfold var_cells_gen, own_cells, ring_array_gen.
+  destruct (nth_error conts (d_gid d)) as [c|] eqn:Hc; reflexivity.
+Qed.
+
 Lemma read_dataset_own conts dvs :
   Forall (good_dvar conts) dvs ->
   read_dataset conts dvs = Ok (map (own_cells conts) dvs).
 Proof.
-  intro F. unfold read_dataset, read_dataset_gen.
-  destruct (parse_all_gen true conts dvs) as [parsed vg] eqn:P.
-  assert (forall i d, nth_error dvs i = Some d -> lookup_geometry i vg = Some (d_gid d)) as L.
-  { intros i d H. replace vg with (snd (parse_all_gen true conts dvs)) by (rewrite P; reflexivity).
-    apply variable_sees_its_container; [assumption|].
-    rewrite Forall_forall in F. apply F. eapply nth_error_In. exact H. }
-  rewrite existsb_false_in.
-  2:{ intros [p d] Hin. apply in_combine_seq in Hin as [i [E N]]. simpl in E. subst p.
-      rewrite (L i d N).
-      rewrite Forall_forall in F. destruct (F d (nth_error_In _ _ N)) as [c [Hc [_ Hm]]].
-      rewrite Hc, Hm. reflexivity. }
-  f_equal. apply map_seq_nth.
-  intros i d N. simpl. rewrite (L i d N). unfold var_cells_gen, own_cells, ring_array_gen.
-  destruct (nth_error conts (d_gid d)) as [c|] eqn:Hc; reflexivity.
+  intro F. rewrite read_dataset_total. f_equal. apply map_ext_in. intros d Hd.
+  rewrite Forall_forall in F. specialize (F d Hd). apply good_dvar_b in F. rewrite F. reflexivity.
 Qed.
 
 (* ------------------------------------------------------------------------- *)
